@@ -277,6 +277,9 @@ func runC03Random(c *fw.Ctx) {
 	w := MixWeights{Ent: 80, Reg: 5, Stream: 0, Bank: 10, Staking: 5, NestedPct: 10, GranterPct: 2, BadSeqPct: 3, GovPct: 0, EntHostile: 25, ExactFeePct: 100}
 	nb := r.Range(40, 70)
 	for b := 0; b < nb && e.Halted == ""; b += 5 {
+		if b > 0 && r.Chance(6) { // the order book must survive an export/import at any point of its lifecycle
+			e.Reimport()
+		}
 		RunMixed(e, g, w, 5)
 		if r.Chance(35) && e.Halted == "" { // change signers / threshold / time limit between lifecycle steps
 			p := e.Last.EntParams
